@@ -19,6 +19,7 @@ package url
 import (
 	"sort"
 	"strings"
+	"unicode/utf8"
 )
 
 type NameValuePair struct {
@@ -42,13 +43,11 @@ func (s *SearchParams) init(query string) {
 		// '+' means space only when written literally: replace it before percent-decoding,
 		// so that an escaped plus sign (%2B) stays a plus sign.
 		name := strings.ReplaceAll(kv[0], "+", " ")
-		// Bytes that are not valid UTF-8 count as U+FFFD, one per byte as the serializer writes
-		// them: kept raw they sort differently before and after a serialization.
-		name = string([]rune(s.url.parser.DecodePercentEncoded(name)))
+		name = s.url.parser.DecodePercentEncoded(name)
 		nvp := &NameValuePair{Name: name}
 		if len(kv) == 2 {
 			value := strings.ReplaceAll(kv[1], "+", " ")
-			value = string([]rune(s.url.parser.DecodePercentEncoded(value)))
+			value = s.url.parser.DecodePercentEncoded(value)
 			nvp.Value = value
 		}
 		s.params = append(s.params, nvp)
@@ -137,10 +136,20 @@ func (s *SearchParams) Set(name, value string) {
 	s.update()
 }
 
+// sortKey is the string a name or value is sorted by: what the serializer writes for it, that is with
+// every byte that is not valid UTF-8 counted as U+FFFD. Sorted by their raw bytes, such names change
+// places once the list has been serialized and parsed again.
+func sortKey(s string) string {
+	if utf8.ValidString(s) {
+		return s
+	}
+	return string([]rune(s))
+}
+
 // Sort sorts the search parameters by name.
 func (s *SearchParams) Sort() {
 	sort.SliceStable(s.params, func(i, j int) bool {
-		return s.params[i].Name < s.params[j].Name
+		return sortKey(s.params[i].Name) < sortKey(s.params[j].Name)
 	})
 	s.update()
 }
@@ -148,7 +157,7 @@ func (s *SearchParams) Sort() {
 // SortAbsolute sorts the search parameters by name and value.
 func (s *SearchParams) SortAbsolute() {
 	sort.SliceStable(s.params, func(i, j int) bool {
-		return s.params[i].Name+s.params[i].Value < s.params[j].Name+s.params[j].Value
+		return sortKey(s.params[i].Name)+sortKey(s.params[i].Value) < sortKey(s.params[j].Name)+sortKey(s.params[j].Value)
 	})
 	s.update()
 }
